@@ -4,7 +4,7 @@
    value of the flag variables. Not covered by the translation: strings.Fields, the flag package (modelled by hand,
    tied by correspondence) and the cache key e.String() assigned after the translated statements. *)
 From Coq Require Import List NArith ZArith Bool Lia.
-From TarsV Require Import Base.Hex Endpoint.Parse Xlate.GoSem Gen.Translated.
+From TarsV Require Import Base.Hex Endpoint.Parse Xlate.GoSem Xlate.GoSemFacts Gen.Translated.
 Import ListNotations.
 Open Scope Z_scope.
 
@@ -26,7 +26,7 @@ Theorem tr_Parse_build_equiv : forall (pr0 : list N) (st : fstate),
   tr_Parse_build pr0 (f_h st) (f_b st) (f_p st) (f_t st) (f_g st) (f_q st) (f_w st) (f_v st) (f_e st)
   = Next (go_of_ep (build pr0 st)).
 Proof.
-  intros pr0 st. unfold tr_Parse_build, build.
+  intros pr0 st. unfold tr_Parse_build, build. fold_bool.
   rewrite !go_bytes_eqb_model. fold s_tcp. fold s_ssl.
   rewrite (Z.gtb_ltb (f_w st) 100).
   destruct (bytes_eqb pr0 s_tcp) eqn:Et.
